@@ -82,4 +82,10 @@ def _c16():
     return {"builders": [ck.build], "level": "other", "explanation": "escape decoding"}
 
 
-PROPS = {"C16": _c16, "C19": _c19, "C09": _c09, "C07": _c07, "C06": _c06, "C20": _c20, "C01": _c01, "C05": _c05}
+def _c12():
+    import stl as sk
+    return {"builders": [sk.build], "level": "other", "explanation": "C++ wrapper layer of the built-in containers: every registered sequence/string/range callable",
+            "replay_fn": sk.replay_fn, "replay_file_fn": sk.replay_file}
+
+
+PROPS = {"C12": _c12, "C16": _c16, "C19": _c19, "C09": _c09, "C07": _c07, "C06": _c06, "C20": _c20, "C01": _c01, "C05": _c05}
